@@ -279,6 +279,13 @@ def arg_mutator(detector, lst=None, tag=None):
         lst.append(len(lst))
 
 
+def array_arg_mutator(detector, arr=None, tag=None):
+    """A model that works in place on an ndarray-valued argument (e.g. `response *= gain`); only the Python API can configure one."""
+    if arr is not None:
+        detector.pixel.array = detector.pixel.array + float(np.sum(arr))
+        arr *= 2.0
+
+
 def const_image(detector, value=7):
     detector.image.array = np.full(detector.geometry.shape, int(value), dtype=np.uint16)
 
